@@ -3359,7 +3359,7 @@ theorem infoLookup_none_iff (name : Bytes) (subs : List Bytes) :
     | nil => simp
     | cons b rest' => simp
 
-/-- **infoFlag_iff.** A `Type=Flag` key is True for a row exactly when one of the row's items IS the name. -/
+/-- (unfolds the definition; a lemma, not a counted obligation) the flag is True iff an item IS the name -/
 theorem infoFlag_iff (name : Bytes) (subs : List Bytes) : infoFlag name subs = true ↔ name ∈ subs := by
   simp [infoFlag]
 
@@ -3382,28 +3382,83 @@ theorem info_longer_item (name ext : Bytes) (hext : ext ≠ []) :
       rw [this]
       simp
 
-/-- **info_key_family.** Keys are compared by their whole name: a row all of whose items merely START WITH the name
-of a key (other flags `DBX`, other keys `DBSNP=…`; not `DB=…`) reads as "key absent" — the flag is False and the
-lookup gives the empty (missing) text — however many such relatives the row holds. -/
+/-- a RELATIVE of the key `name`: an item that starts with the name and goes on, but not with `=` — another flag
+`DBX`, another key `DBSNP=b151`, for `DB`; neither `DB` itself nor `DB=…` -/
+def infoRelative (name f : Bytes) : Bool :=
+  isPrefix name f && decide (name.length < f.length) && !(isPrefix (name ++ [61]) f)
+
+/-- the decidable test says what the comment says -/
+theorem infoRelative_iff (name f : Bytes) :
+    infoRelative name f = true ↔ ∃ ext, f = name ++ ext ∧ ext ≠ [] ∧ ext.head? ≠ some 61 := by
+  constructor
+  · intro h
+    simp only [infoRelative, Bool.and_eq_true, decide_eq_true_eq, Bool.not_eq_true'] at h
+    obtain ⟨⟨hp, hl⟩, hn⟩ := h
+    have hf : f = name ++ f.drop name.length := by
+      have : f.take name.length = name := by simpa [isPrefix] using hp
+      conv => lhs; rw [← List.take_append_drop name.length f, this]
+    have hne : f.drop name.length ≠ [] := by
+      intro h0
+      have := congrArg List.length h0
+      simp at this
+      omega
+    refine ⟨f.drop name.length, hf, hne, ?_⟩
+    intro hh
+    have := (info_longer_item name _ hne).2.mpr hh
+    rw [← hf, hn] at this
+    exact Bool.false_ne_true this
+  · rintro ⟨ext, rfl, hne, hh⟩
+    simp only [infoRelative, Bool.and_eq_true, decide_eq_true_eq, Bool.not_eq_true']
+    refine ⟨⟨?_, ?_⟩, ?_⟩
+    · simp [isPrefix]
+    · have : 0 < ext.length := List.length_pos_iff.mpr hne
+      simp; omega
+    · cases hp : isPrefix (name ++ [61]) (name ++ ext) with
+      | false => rfl
+      | true => exact absurd ((info_longer_item name ext hne).2.mp hp) hh
+
+/-- **infoFlag_only_name.** The flag of a key depends on nothing but the items that ARE the name: removing (or, read
+from right to left, adding) any items other than the name — whatever they look like — leaves it unchanged. -/
+theorem infoFlag_only_name (name : Bytes) (p : Bytes → Bool) (hp : p name = true) (subs : List Bytes) :
+    infoFlag name (subs.filter p) = infoFlag name subs := by
+  rw [Bool.eq_iff_iff, infoFlag_iff, infoFlag_iff, List.mem_filter]
+  exact ⟨fun h => h.1, fun h => ⟨h, hp⟩⟩
+
+/-- **info_relatives_irrelevant.** Keys are compared by their whole name: in ANY row — relatives mixed with other
+items in any order, e.g. `AF=0.5;DBX;DB=3;DBSNP=b1` — taking the relatives of a key out changes neither the key's
+value lookup (missing / value / "found twice") nor its flag. -/
+theorem info_relatives_irrelevant (name : Bytes) (subs : List Bytes) :
+    infoLookup name subs = infoLookup name (subs.filter (fun f => !infoRelative name f)) ∧
+    infoFlag name subs = infoFlag name (subs.filter (fun f => !infoRelative name f)) := by
+  constructor
+  · unfold infoLookup
+    rw [List.filter_filter]
+    have : subs.filter (isPrefix (name ++ [61])) =
+        subs.filter (fun a => isPrefix (name ++ [61]) a && !infoRelative name a) := by
+      apply List.filter_congr
+      intro f _
+      cases hp : isPrefix (name ++ [61]) f <;> simp [infoRelative, hp]
+    rw [this]
+  · refine (infoFlag_only_name name _ ?_ subs).symm
+    simp [infoRelative]
+
+/-- **info_key_family.** The corollary for a row ALL of whose items are relatives of the key (other flags `DBX`,
+other keys `DBSNP=…`): it reads as "key absent" — the flag is False and the lookup gives the empty (missing) text. -/
 theorem info_key_family (name : Bytes) (subs : List Bytes)
     (h : ∀ f ∈ subs, ∃ ext, f = name ++ ext ∧ ext ≠ [] ∧ ext.head? ≠ some 61) :
     infoFlag name subs = false ∧ infoLookup name subs = some [] := by
-  constructor
-  · rw [Bool.eq_false_iff]
-    intro hf
-    rw [infoFlag_iff] at hf
-    obtain ⟨ext, he, hne, _⟩ := h name hf
-    exact (info_longer_item name ext hne).1 he.symm
-  · unfold infoLookup
-    have : subs.filter (isPrefix (name ++ [61])) = [] := by
-      apply List.filter_eq_nil_iff.mpr
-      intro f hf
-      obtain ⟨ext, he, hne, hh⟩ := h f hf
-      rw [he]
-      intro hp
-      exact hh ((info_longer_item name ext hne).2.mp hp)
-    rw [this]
+  have hnil : subs.filter (fun f => !infoRelative name f) = [] := by
+    apply List.filter_eq_nil_iff.mpr
+    intro f hf
+    simp [(infoRelative_iff name f).mpr (h f hf)]
+  obtain ⟨h1, h2⟩ := info_relatives_irrelevant name subs
+  rw [h1, h2, hnil]
+  exact ⟨rfl, rfl⟩
 
+-- key DB, row "AF=0.5;DBX;DB=3;DBSNP=b1": two relatives among other items; without them "AF=0.5;DB=3"
+example : [[65,70,61,48,46,53], [68,66,88], [68,66,61,51], [68,66,83,78,80,61,98,49]].filter (fun f => !infoRelative [68,66] f)
+    = [[65,70,61,48,46,53], [68,66,61,51]] := by decide
+example : infoLookup [68,66] [[65,70,61,48,46,53], [68,66,88], [68,66,61,51], [68,66,83,78,80,61,98,49]] = some [51] := by decide
 -- flag DB, row "DBX;DBSNP=b1": relatives only
 example : ∀ f ∈ [[68,66,88], [68,66,83,78,80,61,98,49]], ∃ ext, f = [68,66] ++ ext ∧ ext ≠ [] ∧ ext.head? ≠ some 61 := by
   intro f hf
